@@ -439,7 +439,6 @@ Lemma st_create_table_rep s d n fds s' :
   st_create_table s n fds = (s', Ok tt) ->
   names_distinct (names fds) = true /\ find_tbl n d = None /\ Rep s' (d ++ [mkTbl n fds []]).
 Proof.
-  intros HR Hsys Hmax Hrun. unfold st_create_table in Hrun. fold (names fds) in Hrun.
-  destruct (names_distinct (names fds)) eqn:Hd; [|inversion Hrun].
-  split; [reflexivity|]. eapply st_create_table0_rep; eauto. apply names_distinct_NoDup. exact Hd.
+  intros HR Hsys Hmax Hrun. apply st_create_table_ok_inv in Hrun as (Hd & _ & Hrun). fold (names fds) in Hd.
+  split; [exact Hd|]. eapply st_create_table0_rep; eauto. apply names_distinct_NoDup. exact Hd.
 Qed.
